@@ -63,9 +63,15 @@ def repo_hash():
     if _repo_hash is None:
         h = hashlib.sha256()
         _hash_tree([os.path.join(REPO, p) for p in ("src", "cmd", "lib/runtime", "lib/stdlib", "go.mod", "go.sum")], h)
-        _hash_tree([os.path.join(VERIF, "harness"), os.path.join(VERIF, "tools", "buildrepo.sh")], h)
+        _hash_tree([os.path.join(VERIF, "harness", "c", "shim.c"), os.path.join(VERIF, "tools", "buildrepo.sh")], h)
         _repo_hash = h.hexdigest()[:16]
     return _repo_hash
+
+
+def _dir_hash(paths):
+    h = hashlib.sha256()
+    _hash_tree(paths, h)
+    return h.hexdigest()[:12]
 
 
 def _prune_cache(keep):
@@ -75,8 +81,9 @@ def _prune_cache(keep):
         return
     ds = [d for d in ds if os.path.basename(d) != keep]
     ds.sort(key=lambda d: os.path.getmtime(d), reverse=True)
-    for d in ds[2:]:
-        shutil.rmtree(d, ignore_errors=True)
+    for d in ds[3:]:
+        if time.time() - os.path.getmtime(d) > 1800:
+            shutil.rmtree(d, ignore_errors=True)
 
 
 class Build:
@@ -121,13 +128,18 @@ class Build:
     def ensure_go(self, name):
         """Build harness/go/cmd/<name> against REPO with -tags verif. Returns (path|None, log)."""
         def go():
-            out = os.path.join(self.dir, "bin", name)
-            failf = os.path.join(self.dir, "go_%s.fail" % name)
+            gdir = os.path.join(self.dir, "go-" + _dir_hash([os.path.join(VERIF, "harness", "go")]))
+            os.makedirs(gdir, exist_ok=True)
+            out = os.path.join(gdir, name)
+            failf = os.path.join(gdir, "go_%s.fail" % name)
             if os.path.exists(out):
                 return out, ""
             if os.path.exists(failf):
                 return None, open(failf).read()
-            src = os.path.join(self.dir, "gosrc")
+            for old in os.listdir(self.dir):
+                if old.startswith("go-") and os.path.join(self.dir, old) != gdir and time.time() - os.path.getmtime(os.path.join(self.dir, old)) > 1800:
+                    shutil.rmtree(os.path.join(self.dir, old), ignore_errors=True)
+            src = os.path.join(gdir, "gosrc")
             if not os.path.exists(os.path.join(src, "go.mod")):
                 shutil.rmtree(src, ignore_errors=True)
                 shutil.copytree(os.path.join(VERIF, "harness", "go"), src)
@@ -136,7 +148,6 @@ class Build:
                 gomod += "\nrequire github.com/DDP-Projekt/Kompilierer v0.0.0\nreplace github.com/DDP-Projekt/Kompilierer => %s\n" % REPO
                 open(os.path.join(src, "go.mod"), "w").write(gomod)
                 shutil.copy(os.path.join(REPO, "go.sum"), os.path.join(src, "go.sum"))
-            os.makedirs(os.path.join(self.dir, "bin"), exist_ok=True)
             t = time.time()
             p = subprocess.run(["go", "build", "-tags", "verif", "-o", out, "./cmd/" + name], cwd=src, capture_output=True, text=True, env=GOENV, timeout=900)
             log("[build] go harness %s in %.0fs rc=%d" % (name, time.time() - t, p.returncode))
@@ -149,7 +160,8 @@ class Build:
     def ensure_c(self, name, sources, extra=(), asan=False):
         """Build a C harness (harness/c/<sources>) against the runtime/stdlib of this tree."""
         def go():
-            out = os.path.join(self.dir, "bin", name)
+            srcs = [os.path.join(VERIF, "harness", "c", s) for s in sources]
+            out = os.path.join(self.dir, "bin", "%s-%s" % (name, _dir_hash(srcs + [os.path.join(VERIF, "harness", "c", "shim.c")])))
             if os.path.exists(out):
                 return out, ""
             sfx = "_asan" if asan else ""
